@@ -57,7 +57,16 @@ func init() {
 			return nil
 		})
 		p.reg("(*"+ps+".Topic).String", func(ex *Exec, fr *Frame, args []Value) Value { return "/model/topic" })
+		p.reg("verif_PubsubPublishFails", func(ex *Exec, fr *Frame, args []Value) Value {
+			ex.publishFails = args[0].(*Term).IsConst() && args[0].(*Term).val != 0
+			return nil
+		})
 		p.reg("(*"+ps+".Topic).Publish", func(ex *Exec, fr *Frame, args []Value) Value {
+			if ex.publishFails {
+				// documented failures of Publish: closed topic, validation failure, no router
+				ex.nonNil(fr, args[0])
+				return ex.newErrorString("model: pubsub publish failed")
+			}
 			t := topic(ex, ex.nonNil(fr, args[0]))
 			data, _ := args[2].([]Value)
 			t.published = append(t.published, append([]Value{}, data...))
